@@ -313,6 +313,21 @@ def run(rep, tier):
             # the row store's own dry run of the write (same field validation, complexity budget and size limit, nothing written)
             if re.search(r"^ext:anda_db::collection::Collection::check_(update|add_from)$", prog.node_name(n) or ""):
                 prevalid = True
+    # ... and per kind of object written: the element row goes through Collection::update, the version-log entry appended with it
+    # through Collection::add_from, and the log entry carries the whole row as one field (the per-field budget applies to the whole
+    # element there) - the dry run of one does not stand for the other
+    DRY = {"add_from": "check_add_from", "add": "check_add_from", "update": "check_update", "upsert": "check_update"}
+    kinds = {(prog.node_name(n) or "").rsplit("::", 1)[1] for n in content_refusing}
+    dry, generic = set(), False
+    if cbw:
+        for n in prog.reach_set([cbw[0].id]):
+            nm = prog.node_name(n) or ""
+            m_ = re.search(r"^ext:anda_db::collection::Collection::(check_update|check_add_from)$", nm)
+            if m_:
+                dry.add(m_.group(1))
+            if re.search(r"^ext:anda_db_schema::(schema::Schema::validate|field::FieldValue::validate_complexity(_with)?)$", nm):
+                generic = True
+    undried = sorted(k for k in kinds if DRY.get(k) not in dry)
     compensated = True
     for e in wr:
         oks, errs = cm.result_edges(e)
@@ -325,6 +340,11 @@ def run(rep, tier):
            "in the middle of the write loop: check_before_write runs no schema / complexity / size validation over the staged rows, and the Err edge of "
            "Transaction::write returns without compensation, so the rows written before it stay (no journal entry) and the unwritten handles stay as pending shells",
            wr[0].where())
+    rep.ob("R17.3", "every-written-object-dry-run|Transaction::commit", (not undried) or generic or (bool(wr) and compensated),
+           "the write loop stores objects through Collection::%s but the pre-write checks reach no dry run of that kind of write (found: %s): the version-log "
+           "entry carries the whole row as one field, so an element whose fields each fit the per-field budget but together exceed it passes the row's dry run "
+           "and is refused at record_version in the middle of the loop - the rows written before it stay, the statement answers with an error" % (
+               ", ".join(undried), ", ".join(sorted(dry)) or "none"), wr[0].where())
 
     # ------------------------------------------------------------------ R17.7 planning order
     rep.rule("R17.7", "planning order (clause order carries no semantics): every clause that creates the record behind a handle is planned in an earlier pass "
